@@ -1044,3 +1044,152 @@ Proof.
     cbn [idx]. rewrite Nat.leb_refl. cbn [length firstn off]. splits; auto; try lia.
 Qed.
 Print Assumptions fn_read_ok.
+
+(* ---------- truncate ---------- *)
+Lemma mem_resize_shrink b n : n <= length b -> mem_resize b n = firstn n b.
+Proof. intros H. unfold mem_resize. replace (n - length b) with 0 by lia. cbn [repeat]. apply app_nil_r. Qed.
+Lemma mem_resize_grow b n : length b <= n -> mem_resize b n = b ++ repeat 0 (n - length b).
+Proof. intros H. unfold mem_resize. rewrite firstn_all2 by lia. reflexivity. Qed.
+Lemma mem_resize_length b n : length (mem_resize b n) = n.
+Proof.
+  unfold mem_resize. rewrite app_length, firstn_length, repeat_length. lia.
+Qed.
+
+Lemma firstn_content_plus l i o :
+  i < length l -> o <= slen (nthseg l i) ->
+  firstn (pre_len l i + o) (flat_map sbytes l) = flat_map sbytes (firstn i l) ++ firstn o (sbytes (nthseg l i)).
+Proof.
+  intros Hi Ho. rewrite (content_split l i Hi) at 1. unfold pre_len.
+  rewrite firstn_app. rewrite firstn_all2 by lia. f_equal.
+  replace (length (flat_map sbytes (firstn i l)) + o - length (flat_map sbytes (firstn i l))) with o by lia.
+  rewrite firstn_app. unfold slen in Ho. replace (o - length (sbytes (nthseg l i))) with 0 by lia.
+  cbn [firstn]. apply app_nil_r.
+Qed.
+
+Section Truncate.
+Variable mb : nat.
+Hypothesis mb_pos : 1 <= mb.
+
+Lemma truncate_shrink_ok fn want :
+  WF fn -> want < size fn ->
+  content (fn_truncate mb fn want) = firstn want (content fn) /\ WF (fn_truncate mb fn want) /\
+  repacked (fn_truncate mb fn want) = S (repacked fn).
+Proof.
+  intros [Hsz Hpos] Hlt. unfold fn_truncate.
+  assert (E1 : (want =? size fn) = false) by (apply Nat.eqb_neq; lia).
+  assert (E2 : (want <? size fn) = true) by (apply Nat.ltb_lt; lia).
+  rewrite E1, E2.
+  unfold seek. cbn [size off rep segs].
+  assert (E3 : (size fn <=? want) = false) by (apply Nat.leb_gt; lia). rewrite E3.
+  assert (Hw : want < length (flat_map sbytes (segs fn))) by (unfold content in Hsz; lia).
+  destruct (locate_ok (segs fn) want 0 Hpos Hw) as (k & o & A & B & C & D).
+  rewrite A. cbn [Nat.add idx soff].
+  set (l := segs fn) in *.
+  destruct (o =? 0) eqn:E0.
+  - apply Nat.eqb_eq in E0. subst o. rewrite Nat.add_0_r in D.
+    split; [|split; [|reflexivity]].
+    + unfold content. cbn [segs]. fold l. rewrite <- D. symmetry. apply firstn_content.
+    + split; cbn [segs size].
+      * unfold content. cbn [segs]. rewrite <- D. unfold pre_len. reflexivity.
+      * apply Forall_firstn. exact Hpos.
+  - apply Nat.eqb_neq in E0.
+    assert (Hnew : exists x, sbytes x = firstn o (sbytes (nthseg l k)) /\
+       (match nthseg l k with
+        | Mem b => set_nth (firstn (S k) l) k (Mem (mem_resize b o))
+        | Sto b => set_nth (firstn (S k) l) k (slice (Sto b) 0 (Some o))
+        end) = firstn k l ++ [x]).
+    { assert (Hf : firstn k (firstn (S k) l) = firstn k l) by (rewrite firstn_firstn; f_equal; lia).
+      assert (Hs : skipn (S k) (firstn (S k) l) = []) by (apply skipn_all2; rewrite firstn_length; lia).
+      destruct (nthseg l k) as [b|b] eqn:Es.
+      - exists (Mem (mem_resize b o)). split.
+        + cbn [sbytes]. apply mem_resize_shrink. unfold slen in C. cbn [sbytes] in C. lia.
+        + unfold set_nth. rewrite Hf, Hs. reflexivity.
+      - exists (slice (Sto b) 0 (Some o)). split.
+        + rewrite sbytes_slice_some. reflexivity.
+        + unfold set_nth. rewrite Hf, Hs. reflexivity. }
+    destruct Hnew as (x & Hx & Hl). rewrite Hl.
+    assert (Hc : flat_map sbytes (firstn k l ++ [x]) = firstn want (flat_map sbytes l)).
+    { rewrite flat_map_app. cbn [flat_map]. rewrite app_nil_r, Hx. rewrite <- D.
+      symmetry. apply firstn_content_plus; [auto|lia]. }
+    split; [exact Hc|split; [|reflexivity]].
+    split; cbn [segs size].
+    + unfold content. cbn [segs]. rewrite Hc. rewrite firstn_length. lia.
+    + apply Forall_app; split; [apply Forall_firstn; exact Hpos|]. constructor; [|constructor].
+      unfold slen. rewrite Hx. rewrite firstn_length. unfold slen in C. lia.
+Qed.
+End Truncate.
+
+Section Grow.
+Variable mb : nat.
+Hypothesis mb_pos : 1 <= mb.
+
+Lemma grow_ok fuel : forall l sz want,
+  sz = length (flat_map sbytes l) -> Forall (fun s => 0 < slen s) l -> want - sz <= fuel -> sz <= want ->
+  let '(l', sz') := grow mb fuel l sz want in
+  flat_map sbytes l' = flat_map sbytes l ++ repeat 0 (want - sz) /\ sz' = want /\
+  Forall (fun s => 0 < slen s) l' /\ sz' = length (flat_map sbytes l').
+Proof.
+  induction fuel as [|fuel IH]; intros l sz want Hsz Hpos Hfuel Hle.
+  - cbn [grow]. replace (want - sz) with 0 by lia. cbn [repeat]. rewrite app_nil_r.
+    repeat split; auto; lia.
+  - cbn [grow]. destruct (want <=? sz) eqn:E.
+    + apply Nat.leb_le in E. replace (want - sz) with 0 by lia. cbn [repeat]. rewrite app_nil_r.
+      repeat split; auto; lia.
+    + apply Nat.leb_gt in E.
+      (* common: appending a fresh zero-filled memSegment *)
+      assert (Happ : forall g, g = Nat.min (want - sz) mb ->
+        let '(l', sz') := grow mb fuel (l ++ [Mem (mem_resize [] g)]) (sz + g) want in
+        flat_map sbytes l' = flat_map sbytes l ++ repeat 0 (want - sz) /\ sz' = want /\
+        Forall (fun s => 0 < slen s) l' /\ sz' = length (flat_map sbytes l')).
+      { intros g Hg. assert (1 <= g <= want - sz) by lia.
+        specialize (IH (l ++ [Mem (mem_resize [] g)]) (sz + g) want).
+        destruct (grow mb fuel (l ++ [Mem (mem_resize [] g)]) (sz + g) want) as [l' sz'].
+        destruct IH as (A & B & C & D).
+        - rewrite flat_map_app, app_length. cbn [flat_map sbytes]. rewrite app_nil_r, mem_resize_length. lia.
+        - apply Forall_app; split; [exact Hpos|]. constructor; [|constructor].
+          unfold slen. cbn [sbytes]. rewrite mem_resize_length. lia.
+        - lia.
+        - lia.
+        - split; [|auto]. rewrite A. rewrite flat_map_app. cbn [flat_map sbytes]. rewrite app_nil_r.
+          rewrite mem_resize_grow by (cbn [length]; lia). cbn [app length]. rewrite Nat.sub_0_r.
+          rewrite <- app_assoc. f_equal. rewrite <- repeat_app. f_equal. lia. }
+      destruct (rev l) as [|[b|b] r] eqn:Er; try (apply Happ; reflexivity).
+      destruct (length b <? mb) eqn:Eb; [|apply Happ; reflexivity].
+      apply Nat.ltb_lt in Eb.
+      assert (Hl : l = rev r ++ [Mem b]).
+      { rewrite <- (rev_involutive l). rewrite Er. reflexivity. }
+      set (g := Nat.min (want - sz) (mb - length b)).
+      assert (Hg : 1 <= g <= want - sz) by (unfold g; lia).
+      specialize (IH (rev r ++ [Mem (mem_resize b (length b + g))]) (sz + g) want).
+      destruct (grow mb fuel (rev r ++ [Mem (mem_resize b (length b + g))]) (sz + g) want) as [l' sz'].
+      assert (Hpos_r : Forall (fun s => 0 < slen s) (rev r)).
+      { rewrite Hl in Hpos. apply Forall_app in Hpos. tauto. }
+      destruct IH as (A & B & C & D).
+      * rewrite Hsz, Hl. rewrite !flat_map_app, !app_length. cbn [flat_map sbytes]. rewrite !app_nil_r.
+        rewrite mem_resize_length. lia.
+      * apply Forall_app; split; [exact Hpos_r|]. constructor; [|constructor].
+        unfold slen. cbn [sbytes]. rewrite mem_resize_length. lia.
+      * lia.
+      * lia.
+      * split; [|auto]. rewrite A. rewrite Hl. rewrite !flat_map_app. cbn [flat_map sbytes]. rewrite !app_nil_r.
+        rewrite mem_resize_grow by lia. rewrite <- !app_assoc. f_equal. f_equal.
+        rewrite <- repeat_app. f_equal. lia.
+Qed.
+
+Theorem truncate_grow_ok fn want :
+  WF fn -> size fn < want ->
+  content (fn_truncate mb fn want) = content fn ++ repeat 0 (want - size fn) /\
+  WF (fn_truncate mb fn want) /\ size (fn_truncate mb fn want) = want /\
+  repacked (fn_truncate mb fn want) = S (repacked fn).
+Proof.
+  intros [Hsz Hpos] Hlt. unfold fn_truncate.
+  assert (E1 : (want =? size fn) = false) by (apply Nat.eqb_neq; lia).
+  assert (E2 : (want <? size fn) = false) by (apply Nat.ltb_ge; lia).
+  rewrite E1, E2.
+  pose proof (grow_ok (S (want - size fn)) (segs fn) (size fn) want Hsz Hpos ltac:(lia) ltac:(lia)) as H.
+  destruct (grow mb (S (want - size fn)) (segs fn) (size fn) want) as [l' sz'].
+  destruct H as (A & B & C & D).
+  unfold content, WF. cbn [segs size repacked]. repeat split; auto.
+Qed.
+End Grow.
+Print Assumptions truncate_grow_ok.
